@@ -26,6 +26,9 @@ import traceback
 
 from . import VERIF_ROOT, REPO, GUARD
 
+# evidence / replays / last-run records go under VERIF_ROOT unless PBMON_OUT redirects them (used when trying seeded changes)
+OUT_ROOT = os.environ.get("PBMON_OUT") or VERIF_ROOT
+
 COUNTERS = collections.Counter()  # monitor counters of the current worker process
 
 
@@ -258,6 +261,9 @@ def check_main(cid, tier=None, seed=None, replay=None, ncases=None, shards=None)
                 stderr_tail = open(os.path.join(scratch, "err%d.txt" % s)).read()[-2000:]
             except OSError:
                 pass
+    if hasattr(mod, "collect"):
+        # parent-side monitors that observe the whole run (e.g. sanitizer log files): may add records and counters
+        mod.collect(scratch, recs, counters)
     rc = aggregate(mod, cid, tier, seed, n, nshards, recs, counters, cut, ended, dead, stderr_tail, time.time() - t0)
     shutil.rmtree(scratch, ignore_errors=True)
     return rc
@@ -301,7 +307,7 @@ def aggregate(mod, cid, tier, seed, n, nshards, recs, counters, cut, ended, dead
     done = len(recs)
     # keep the non-ok records of the last run for triage (git-ignored)
     try:
-        ldir = os.path.join(VERIF_ROOT, "out", "last")
+        ldir = os.path.join(OUT_ROOT, "out", "last")
         os.makedirs(ldir, exist_ok=True)
         with open(os.path.join(ldir, "%s.%s.jsonl" % (cid, tier)), "w") as lf:
             for r in recs:
@@ -341,7 +347,7 @@ def aggregate(mod, cid, tier, seed, n, nshards, recs, counters, cut, ended, dead
     by_sig = collections.OrderedDict()
     for v in viols:
         by_sig.setdefault(v["sig"], []).append(v)
-    rdir = os.path.join(VERIF_ROOT, "out", "replays", cid)
+    rdir = os.path.join(OUT_ROOT, "out", "replays", cid)
     for sig, vs in by_sig.items():
         os.makedirs(rdir, exist_ok=True)
         v = min(vs, key=lambda x: len(json.dumps(x.get("case"), default=str)))
@@ -371,8 +377,8 @@ def aggregate(mod, cid, tier, seed, n, nshards, recs, counters, cut, ended, dead
     ev = dict(property_id=cid, tier=tier, seed=seed, level=mod.LEVEL, coverage=cov,
               assumptions=list(getattr(mod, "ASSUMPTIONS", [])), wall_s=round(wall, 2), violations=len(viols),
               verdict="violated" if viols else ("inconclusive" if problems else "held"))
-    os.makedirs(os.path.join(VERIF_ROOT, "evidence"), exist_ok=True)
-    with open(os.path.join(VERIF_ROOT, "evidence", cid + ".json"), "w") as f:
+    os.makedirs(os.path.join(OUT_ROOT, "evidence"), exist_ok=True)
+    with open(os.path.join(OUT_ROOT, "evidence", cid + ".json"), "w") as f:
         json.dump(ev, f, indent=1, default=str)
     # ---- report
     print("%s tier=%s seed=%d cases=%d/%d evaluations=%d distinct_nontrivial=%d wall=%.1fs status=%s" % (
